@@ -504,6 +504,12 @@ def monitorOp (mu : Mon) (prev : Args) (toks : List String) (implOk : Bool) (out
           let pre := if dirty then "C06/flex/propose-after-group-update-in-same-block" else "C06/flex/not-snapshot"
           let t := tallyOf O.votes p.id
           let pb := O.votes.find? fun b => b.id == p.id && b.addr == p.proposer
+          -- the snapshot the proposal is measured against is itself consistent: its total is the sum of its
+          -- members' weights (all actors of a trace are probed)
+          (let sumM := sn.members.foldl (fun acc m => acc + (m.2.getD 0)) 0
+           if sumM == sn.total then [] else
+            [mk "C06" "C06/flex/snapshot-total-ne-sum-of-members"
+              s!"id={p.id} TotalWeight(at_height={r.start})={sn.total} sum of Member(at_height)={sumM}"]) ++
           (if p.total == sn.total then [] else
             [mk "C06" s!"{pre}/total_weight" s!"id={p.id} total_weight={p.total} TotalWeight(at_height={r.start})={sn.total}"]) ++
           (match pb with
